@@ -96,6 +96,11 @@ def identity(x):
 _HASH_OPTIMIZE_PREPARERS = {}
 
 
+def _tuplify(x):
+    """Recursively convert (nested) lists to tuples."""
+    return tuple(_tuplify(y) if isinstance(y, list) else y for y in x)
+
+
 def hash_prepare_optimize(optimize):
     """Transform an `optimize` object into a hashable form."""
     cls = optimize.__class__
@@ -103,7 +108,8 @@ def hash_prepare_optimize(optimize):
         h = _HASH_OPTIMIZE_PREPARERS[cls]
     except KeyError:
         if isinstance(optimize, list):
-            h = _HASH_OPTIMIZE_PREPARERS[cls] = tuple
+            # n.b. a path can be e.g. a list of lists
+            h = _HASH_OPTIMIZE_PREPARERS[cls] = _tuplify
         else:
             h = _HASH_OPTIMIZE_PREPARERS[cls] = identity
     return h(optimize)
